@@ -172,6 +172,9 @@ func (r *c09LegReg) RoundTrip(req *http.Request) (*http.Response, error) {
 		}
 	}
 	r.events = append(r.events, c09LegEvent{layer, kind, req.Method, a.status})
+	if a.status == 0 {
+		return nil, fmt.Errorf("scripted transport error")
+	}
 	hdr := map[string]string{}
 	if a.loc {
 		hdr["Location"] = next
@@ -179,8 +182,8 @@ func (r *c09LegReg) RoundTrip(req *http.Request) (*http.Response, error) {
 	return c09LegResp(req, a.status, hdr), nil
 }
 
-// every status but 401; per request kind further exclusions below
-var c09LStatuses = []int{100, 101, 199, 200, 201, 202, 204, 206, 300, 301, 302, 303, 304, 305, 307, 308, 399, 400, 403, 404, 409, 500, 503}
+// every status but 401; per request kind further exclusions below.  Status 0 is NO answer: the transport fails.
+var c09LStatuses = []int{0, 100, 101, 199, 200, 201, 202, 204, 206, 300, 301, 302, 303, 304, 305, 307, 308, 399, 400, 403, 404, 409, 500, 503}
 
 func c09LGen(rng *zzverif.Rng, endings []c09LResp, exclude func(c09LResp) bool) []c09LResp {
 	var s []c09LResp
@@ -547,6 +550,9 @@ func (r *c09ShReg) RoundTrip(req *http.Request) (*http.Response, error) {
 	p := req.URL.Path
 	from := req.URL.Query().Get("from")
 	answer := func(a c09LResp, next string) (*http.Response, error) {
+		if a.status == 0 {
+			return nil, fmt.Errorf("scripted transport error")
+		}
 		hdr := map[string]string{}
 		if a.loc {
 			hdr["Location"] = next
